@@ -43,12 +43,12 @@ class InfraError(Exception):
     """Something in the machinery (build, TLC, harness) failed: exit 2, never a verdict."""
 
 
-def sh(cmd, timeout=600, env=None, cwd=None, check=False, input=None):
+def sh(cmd, timeout=600, env=None, cwd=None, check=False, input=None, drop_stderr=False):
     e = dict(os.environ)
     if env:
         e.update(env)
     try:
-        p = subprocess.run(cmd, stdout=subprocess.PIPE, stderr=subprocess.STDOUT, timeout=timeout, env=e, cwd=cwd,
+        p = subprocess.run(cmd, stdout=subprocess.PIPE, stderr=subprocess.DEVNULL if drop_stderr else subprocess.STDOUT, timeout=timeout, env=e, cwd=cwd,
                            input=input, text=True, errors="replace")
     except subprocess.TimeoutExpired as ex:
         out = ex.stdout if isinstance(ex.stdout, str) else (ex.stdout or b"").decode(errors="replace")
